@@ -929,11 +929,13 @@ def _letters_cases(ctx, reqs, pend):
             A = np.eye(4)
             A[:3, :3] = m
             A[:3, 3] = [1.0, 2.0, 3.0]
-            if ''.join(x.value for x in sp.get_closest_patient_orientation(A)) != o:
+            st4, b4 = _call(sp.get_closest_patient_orientation, A)
+            if st4 != 'ok' or ''.join(x.value for x in b4) != o:
                 ctx.fail(dict(case, fn='get_closest_patient_orientation(4x4)'), 'differs', site='letters')
             st3, g = _call(hd.VolumeGeometry.from_components, (2, 3, 4), spacing=s3, coordinate_system='PATIENT',
                            position=[1.0, 2.0, 3.0], patient_orientation=_spell_letters(r, o))
-            if st3 != 'ok' or ''.join(x.value for x in g.get_closest_patient_orientation()) != o:
+            st5, b5 = _call(g.get_closest_patient_orientation) if st3 == 'ok' else ('err', None)
+            if st3 != 'ok' or st5 != 'ok' or ''.join(x.value for x in b5) != o:
                 ctx.fail(dict(case, fn='VolumeGeometry.from_components(patient_orientation)'), f'{st3}', site='letters')
         # reference-convention change of an affine: row i of the result is the coordinate along letter i
         st, out = _pcall(sp._transform_affine_to_convention, A0, (3, 4, 5), _spell_letters(r, 'LPH'), _spell_letters(r, o))
